@@ -999,9 +999,9 @@ func init() {
 	}
 	common := "case = cluster starting with 1..3 servers and 3..12 control-plane steps: create / delete dataset through any node, join of a new node (up to 5), removal of a node, crash / restart of one or all nodes, waits that let the 10 s snapshot ticker compact the zero group (threshold knob 2, 3 or 5000), isolation / heal, optional message faults; then faults stop, everything restarts and settles, the oracle runs, ALL nodes are restarted once more and the oracle runs again, then a canary create through every node; "
 	mk("C14", common+"oracle: every member lists the same catalogue (id, dimension, metric, partition ids, replica assignment), acknowledged creates are present, acknowledged deletes are absent and their partition groups are gone; non-trivial = at least one create/join/removal; distinct = hash of the event log",
-		[]string{"catalogue_creates", "catalogue_deletes", "catalogue_comparisons", "membership_joins", "membership_removals", "node_restarts", "follower_installed_snapshot", "canary_creates_ok", "fault_crash"}, 1000, 20000)
+		[]string{"catalogue_creates", "catalogue_deletes", "catalogue_comparisons", "membership_joins", "membership_removals", "node_restarts", "follower_installed_snapshot", "canary_creates_ok", "fault_crash"}, 2000, 30000)
 	mk("C18", common+"half of the create/delete/join steps are issued without waiting (bursts); oracle: bounded liveness - the cluster settles within 120 simulated seconds, no catalogue lock is held while everything is blocked, canary creates succeed on every node; non-trivial = at least one create/join/removal; distinct = hash of the event log",
 		[]string{"catalogue_creates", "catalogue_deletes", "membership_joins", "membership_removals", "node_restarts", "canary_creates_ok", "fault_crash"}, 1200, 15000)
 	mk("C20", common+"oracle: every member's address book equals the acknowledged joins minus the acknowledged removals, with the announced addresses, after settling and again after a restart of all nodes; non-trivial = at least one create/join/removal; distinct = hash of the event log",
-		[]string{"membership_joins", "membership_removals", "membership_views_compared", "node_restarts", "follower_installed_snapshot", "fault_crash"}, 1000, 20000)
+		[]string{"membership_joins", "membership_removals", "membership_views_compared", "node_restarts", "follower_installed_snapshot", "fault_crash"}, 1500, 30000)
 }
